@@ -257,8 +257,25 @@ PROPS = {
         level_note='The queue machine theorems (learn_inv, learn_final_valid) cover LearnSPN for every splitter behaviour; XPC construction is '
                    'not modelled: its results are decided by the verified validator (checkSpn_accept_iff, checkSpn_sound) run on every '
                    'returned circuit, i.e. translation-validation style for that learner. Trusted as elsewhere.',
+    ),    'C08': dict(
+        module='c08',
+        modules=['DeeprobModel.Props.C08', 'DeeprobModel.Props.C08WellOrdered', 'DeeprobModel.Props.C06'],
+        theorems=['Deeprob.Sched.topdown_atomic_schedule_indep', 'Deeprob.Sched.orInto_idem', 'Deeprob.Sched.layers_partition',
+                  'Deeprob.Sched.layers_edge_lt', 'Deeprob.Sched.bottomup_schedule_indep', 'Deeprob.Sched.bottomup_schedule_indep_perm',
+                  'Deeprob.Sched.nonatomic_lost_update', 'Deeprob.Sched.disciplinedB_iff', 'Deeprob.Sched.disciplined_imp_indep',
+                  'Deeprob.C06.topdown_one_leaf_per_var'],
+        fragments=[],
+        rule='circuits with k parents of one layer sharing a child (k = 2, 4, 5, 16), random DAGs with sharing; for n_jobs in {2, 4, -1}: '
+             'likelihood / log_likelihood / mpe equal to the sequential result, sample complete and evidence-preserving; recorded '
+             'accesses (hook) of the bottom-up and top-down parallel passes: barrier between layers, lock discipline decided by the '
+             'verified checker disciplinedB (theorem disciplined_imp_indep then covers every interleaving), layered order vs the model; '
+             'on a discipline violation the real code is stressed (16 parents, 2e6 rows, 16 threads) for a lost update; non-trivial = '
+             'circuit with a shared child; distinct = distinct node table',
+        level_note='The theorem quantifies over all interleavings of the MODELLED atomic actions. That the recorded accesses are all the '
+                   'accesses, that an OR-update under the lock is atomic w.r.t. other lock holders, and that joblib returns only after all '
+                   'tasks of a layer finished are runtime facts observed through the hook (guard DEEPROB_KIT_VERIF=1), not proved.',
     ),
 }
 
 NOT_CLAIMED = {}
-HOOK_COMMITS = []
+HOOK_COMMITS = ['d76eef1', 'eb1fdbf']
